@@ -254,7 +254,7 @@ pub fn c13<T: Px>(thorough: bool) -> Vec<CellDef> {
             }));
         }
     }
-    if n >= 12 && (n % 4 == 0 || n >= 26 || thorough) {
+    if n >= 12 && (n % 4 == 0 || n == 27 || n >= 30 || thorough) {
         // forced collisions: products with a sparse tail against addends at every alignment (see deep.rs)
         let maxnf = n - 3 - es;
         let z = if thorough { maxnf / 2 + 2 } else if n >= 26 { maxnf * 4 / 5 + 2 } else { maxnf * 2 / 3 + 2 };
@@ -263,6 +263,35 @@ pub fn c13<T: Px>(thorough: bool) -> Vec<CellDef> {
         let what = format!("a in [1,2) with a {maxnf}-bit fraction shape x b at every scale and shape, exact product with a sparse tail of length >= {z}");
         for kind in 0..3u8 {
             v.push(CellDef::new("C13", format!("{}/{}#deep", T::name(), KINDS[kind as usize]), crate::deep::space(n, es, pairs.clone(), maxnf as i32 + 7, rich, &what), move |k| {
+                let (a, b, c) = k3(k);
+                let (want, nt) = refs::fma(n, es, kind, a, b, c);
+                let (pa, pb, pc) = (T::fb(a), T::fb(b), T::fb(c));
+                let got = guard(|| {
+                    match kind {
+                        0 => pa.mul_add(pb, pc),
+                        1 => pa.mul_sub(pb, pc),
+                        _ => pc.sub_product(pa, pb),
+                    }
+                    .tbr() as u128
+                });
+                Out::cmp(got, (want as u128) << sh::<T>(), nt)
+            }));
+        }
+    }
+    if n >= 12 && (n % 4 == 0 || n >= 30 || thorough) {
+        // forced collisions: the addend solved so that a*b+c is within one unit of c's last place of a rounding
+        // boundary, for products that are themselves unusually close to a boundary (see deep.rs)
+        let maxnf = n - 3 - es;
+        let zz = 5 + maxnf / 8;
+        let pr = crate::deep::near_tie_pairs(n, es, if thorough { 500 } else { 200 }, zz, if thorough { 8 } else if n == 32 { 4 } else if n >= 30 { 2 } else { 1 });
+        let mut pr = pr;
+        pr.extend(crate::deep::unstructured_pairs(n, es, if thorough { 8_000 } else if n >= 30 { 1_500 } else { 500 }));
+        let pr_len = pr.len();
+        let pairs = std::sync::Arc::new(pr);
+        let what = format!("pairs (fraction shapes + unstructured fractions at a menu of scales, complete cross product) whose exact product is within 2^-{zz} guard-bit units of a rounding boundary, stratified by product scale and distance ({} pairs)", pr_len);
+        for kind in 0..3u8 {
+            let (nfm, nb) = if thorough { (4, 5) } else { (2, 3) };
+            v.push(CellDef::new("C13", format!("{}/{}#solve", T::name(), KINDS[kind as usize]), crate::deep::solve_space(n, es, pairs.clone(), 2 * maxnf + 8, nfm, nb, kind, &what), move |k| {
                 let (a, b, c) = k3(k);
                 let (want, nt) = refs::fma(n, es, kind, a, b, c);
                 let (pa, pb, pc) = (T::fb(a), T::fb(b), T::fb(c));
